@@ -114,11 +114,34 @@ def work_store(ctx, item):
                 if formats()[fmt]['comment'] is not None and needle not in h[1][:len(h[1]) - len(n[1]) + 80]:
                     ctx.violation('api._header_string', 'states', 'the header does not state %r' % needle, {'kind': 'get_basis', 'name': name, 'fmt': fmt})
             readback_same(ctx, fmt, n[1], h[1], label, real_header)
+        # the format name in another capitalisation: the same text
+        odd = ''.join(c.upper() if i % 2 == 0 else c for i, c in enumerate(fmt)) if rng.random() < 0.5 else fmt.capitalize()
+        for hdr in (True, False):
+            o = impl.call(bse.get_basis, name, elements=els, version=version, fmt=odd, header=hdr)
+            ctx.case((label, odd, hdr), True, 'format-capitalisation')
+            if o != (h if hdr else n):
+                ctx.violation('api.get_basis', 'format-capitalisation:' + ('header' if hdr else 'bare'),
+                              'fmt=%r and fmt=%r give different text (header=%s)' % (odd, fmt, hdr), {'kind': 'get_basis', 'name': name, 'fmt': fmt})
         # hostile headers
         hh = nasty_text(rng)
         out = check_text(ctx, fmt, b, hh, label)
         if out and rng.random() < 0.5:
             readback_same(ctx, fmt, out[0], out[1], label, hh)
+    # the header describes the basis that is in the text, also when that is a generated auxiliary basis
+    if b.get('role') == 'orbital' and any('electron_shells' in el for el in b['elements'].values()):
+        for aux in (1, 2):
+            dct = impl.call(bse.get_basis, name, elements=els, version=version, get_aux=aux)
+            for fmt in ('nwchem', rng.choice([f for f in fmts if formats()[f]['comment'] is not None])):
+                hx = impl.call(bse.get_basis, name, elements=els, version=version, get_aux=aux, fmt=fmt, header=True)
+                nx = impl.call(bse.get_basis, name, elements=els, version=version, get_aux=aux, fmt=fmt, header=False)
+                ctx.case((label, fmt, 'get_aux', aux), True, 'get_aux-header')
+                if dct[0] != 'ok' or hx[0] != 'ok' or nx[0] != 'ok':
+                    continue
+                head = hx[1][:len(hx[1]) - len(nx[1]) + 80]
+                for needle in (dct[1]['name'], 'Role: ' + dct[1]['role']):
+                    if needle not in head:
+                        ctx.violation('api._header_string', 'states:get_aux', 'with get_aux=%d the header does not state %r (the text holds that basis)' % (aux, needle),
+                                      {'kind': 'get_basis', 'name': name, 'fmt': fmt})
     ctx.sample({'store': label, 'formats': fmts[:5], 'hostile_header': nasty_text(rng, 3)})
 
 
